@@ -268,6 +268,8 @@ class RowSets:
             return self.items(t[1]) + [(T, t[3][0])]
         if k == "mut" and t[2] == "extend":
             return self.items(t[1]) + self.items(t[3][0])
+        if k == "bin" and t[1] == "+":
+            return self.items(t[2]) + self.items(t[3])
         if k == "phi":
             c = self.flag(t[1])
             a, b = self.items(t[2]), self.items(t[3])
